@@ -142,6 +142,19 @@ func rcHash(key int) bitcoin.Hash32 {
 	return h
 }
 
+// rcCallHash is the hash a call of (kind, key) is about: calls of different kinds with the same key concern the same transaction
+// (GetTx, SendTx, ReprocessTx) or the same block (GetHeader, MarkInvalid, MarkNotInvalid), as they do in an application.
+func rcCallHash(kind string, key int) bitcoin.Hash32 {
+	switch kind {
+	case "GetTx", "SendTx", "ReprocessTx":
+		return *rcTx(key).TxHash()
+	case "GetHeader", "MarkInvalid", "MarkNotInvalid":
+		rh := rcHeader(key)
+		return *rh.BlockHash()
+	}
+	return rcHash(key)
+}
+
 func rcTx(key int) *wire.MsgTx {
 	tx := wire.NewMsgTx(1)
 	z := bitcoin.Hash32{byte(key), 9}
@@ -387,11 +400,11 @@ func (h *rcH) record(m *Message) {
 	case *GetHeaders:
 		e.Key = int(p.RequestHeight) + 1 // abstract key k is height k-1: key 1 is the genesis height
 	case *ReprocessTx:
-		e.Key = int(p.TxID[0])
+		e.Key = rcTxKey[p.TxID]
 	case *MarkHeaderInvalid:
-		e.Key = int(p.BlockHash[0])
+		e.Key = rcHdrKey[p.BlockHash]
 	case *MarkHeaderNotInvalid:
-		e.Key = int(p.BlockHash[0])
+		e.Key = rcHdrKey[p.BlockHash]
 	case *SendTx:
 		e.Key = rcTxKey[*p.Tx.TxHash()]
 	case *Ping:
@@ -453,13 +466,13 @@ func (h *rcH) startCall(k int, kind string, key int) {
 				}
 			}
 		case "ReprocessTx":
-			err = h.c.ReprocessTx(ctx, rcHash(key), nil)
+			err = h.c.ReprocessTx(ctx, rcCallHash("ReprocessTx", key), nil)
 			rkey = key
 		case "MarkInvalid":
-			err = h.c.MarkHeaderInvalid(ctx, rcHash(key))
+			err = h.c.MarkHeaderInvalid(ctx, rcCallHash("MarkInvalid", key))
 			rkey = key
 		case "MarkNotInvalid":
-			err = h.c.MarkHeaderNotInvalid(ctx, rcHash(key))
+			err = h.c.MarkHeaderNotInvalid(ctx, rcCallHash("MarkNotInvalid", key))
 			rkey = key
 		case "SendTx":
 			tx := rcTx(key)
@@ -570,14 +583,7 @@ func (h *rcH) kindType(kind string) uint64 {
 
 // response builds the service's answer for a call of (kind, key).
 func (h *rcH) response(kind string, key int, form string) MessagePayload {
-	hash := rcHash(key)
-	if kind == "SendTx" || kind == "GetTx" {
-		hash = *rcTx(key).TxHash()
-	}
-	if kind == "GetHeader" {
-		rh := rcHeader(key)
-		hash = *rh.BlockHash()
-	}
+	hash := rcCallHash(kind, key)
 	if form == "reject" {
 		r := &Reject{MessageType: h.kindType(kind), Hash: &hash, Code: RejectCodeNotFound, Message: fmt.Sprintf("no-%d", key)}
 		if kind == "GetHeaders" || kind == "FeeQuotes" {
